@@ -11,6 +11,10 @@ NODE1 = "ACGTTGCAAGGCTTAACGGATCCA"
 NODE2 = "TTGACCGATAGGCATCAAGT"
 
 
+# optional fields are data, never format strings or patterns
+ZTAG = ["co:Z:{\"lib\":\"A\",\"run\":7}", "zz:Z:100%s %d {0} {}", "NM:i:1", "rg:Z:a\\tb\\n"]
+
+
 def RN(i):
     """name of the i-th read: text order is the REVERSE of input order, so that equal priorities broken by record
     text can never restore the input order by accident"""
@@ -63,7 +67,7 @@ def make_inputs(d, R, long_at=0, bgzf_aligned=False, poison_at=0):
             f.write(f">{RN(i)}\n{seq}\n")
             L = len(seq)
             g.write(
-                f"{RN(i)}\t{L}\t0\t{L}\t+\t>s1>s2\t{len(path)}\t{ps}\t{pe}\t{L-1}\t{L}\t60\ttp:A:P\tcg:Z:{L}=\n"
+                f"{RN(i)}\t{L}\t0\t{L}\t+\t>s1>s2\t{len(path)}\t{ps}\t{pe}\t{L-1}\t{L}\t60\ttp:A:P\tcg:Z:{L}=\t{ZTAG[i % len(ZTAG)]}\n"
             )
     if bgzf_aligned:
         # the same records as a multi-block BGZF file > 1 MiB in which records start exactly at 64 KiB ... 1 MiB
